@@ -43,13 +43,13 @@ var (
 // OpEvent is the abstract record of one decoded/encoded operation: the
 // quantities the TLA+ module Lzma talks about, before the operation.
 type OpEvent struct {
-	K    string `json:"k"`
-	D    int64  `json:"d"`   // real distance (1..), 0 for literals
-	N    int    `json:"n"`   // length
-	B    int    `json:"b"`   // literal byte
-	Pos  int64  `json:"pos"` // bytes since last dict reset, before the op
-	St   int    `json:"st"`  // state before
-	Rep  [4]int64 `json:"rep"` // rep distances (real, = stored+1) before
+	K   string   `json:"k"`
+	D   int64    `json:"d"`   // real distance (1..), 0 for literals
+	N   int      `json:"n"`   // length
+	B   int      `json:"b"`   // literal byte
+	Pos int64    `json:"pos"` // bytes since last dict reset, before the op
+	St  int      `json:"st"`  // state before
+	Rep [4]int64 `json:"rep"` // rep distances (real, = stored+1) before
 }
 
 // decodeOp decodes one operation, updates model, and (except for EOS)
